@@ -20,8 +20,8 @@
                              × Size     : `pair_safe_size_ed`, `tables_safe_size_ed`  (distance ≤ τ; filter_pair needs no
                                           common q-gram, filter_tables only that the left value has a q-gram)
                              × Prefix   : `pair_safe_prefix_ed`, `tables_safe_prefix_ed` (distance ≤ τ and a common q-gram)
-                             × Position : `pair_safe_position_ed` (filter_pair, FULL); filter_tables NOT proved — see the
-                                          comment block `tables_safe_position_ed` for the statement and the missing lemma
+                             × Position : `pair_safe_position_ed` (filter_pair, FULL); filter_tables:
+                                          `tables_safe_position_ed`, FULL, in SSJ/Props/C04_ed.lean (same namespace)
                              × Suffix   : not proved (see NOT COVERED).
     OverlapFilter            : `overlap_filter_pair_exact` (filter_pair is EXACT: kept iff both strings are non-empty and
                                the comparison holds), `overlap_filter_tables_exact` (filter_tables, entry level: listed
@@ -62,9 +62,10 @@
       references existing rows (else the real code raises KeyError).
 
   NOT COVERED: float thresholds under OVERLAP and EDIT_DISTANCE (a float EDIT_DISTANCE threshold is not floored by the
-  filters); PositionFilter.filter_tables and SuffixFilter (both forms) under EDIT_DISTANCE — the table-level position
-  scan (`SSJ.positionFindCandidates_complete`) and the suffix estimator (`SSJ.suffixFilterSuffix_safe`) are proved for
-  strictly sorted, i.e. duplicate-free, token lists only, and q-gram bags have duplicates;
+  filters); SuffixFilter (both forms) under EDIT_DISTANCE — the suffix estimator (`SSJ.suffixFilterSuffix_safe`) is
+  proved for strictly sorted, i.e. duplicate-free, token lists only, and q-gram bags have duplicates
+  (PositionFilter.filter_tables under EDIT_DISTANCE IS proved: SSJ/Props/C04_ed.lean, on top of the bag version
+  `SSJ.positionFindCandidates_complete_bag` of the table-level position scan);
   join values that are neither strings nor missing.
 -/
 import SSJ.Proofs.EntryFilters
@@ -334,23 +335,11 @@ theorem tables_safe_prefix_ed (hf : f.cfg = { measure := .editDistance, threshol
   EntryFilters.filterTables_prefix_safe_ed f a t toks cpu l r fr tau q hf pad htok hv hk hrows hres
     ls rs hls hrs hlp hrp ((EntryED.qualED_le_iff _ _ _).1 hd) hshare
 
-/- NOT PROVED — full statement, kept visible:
-
-   theorem tables_safe_position_ed (hf : f.cfg = { measure := .editDistance, threshold := .int tau, qval := .int q })
-       (hres : filterTables .position f a t toks cpu = .ok fr)
-       (ls rs : Row) (hls : ls ∈ l.rows) (hrs : rs ∈ r.rows)
-       (hlp : Present l a.lAttr ls) (hrp : Present r a.rAttr rs)
-       (hd : qualED "<=" tau (strOf l a.lAttr ls) (strOf r a.rAttr rs) = true)
-       (hshare : shareToken (qgrams q pad) (strOf l a.lAttr ls) (strOf r a.rAttr rs) = true) :
-       ∃ row ∈ fr.rows, rowKeys row = (keyOf l a.lKey ls, keyOf r a.rKey rs)
-
-   What is missing: a version of `SSJ.positionFindCandidates_complete` (Proofs/Position.lean: the candidate's overlap
-   counter is never set to −1 and ends positive) for ordered token lists WITH duplicates.  With duplicates one probe
-   token meets several postings `(cand, cand_pos)` of the same candidate, each with its own positional bound
-   `min(n − probe_pos, cn − cand_pos)`; the existing proof uses that a token occurs once per record
-   (`SSJ.zipIdx_filter_eq_single`).  Everything else (the bridge `EntryFilters.mem_filterTables_iff`, the size window,
-   `ovThr = max(|A|,|B|) − q·τ`, the bag bound `EntryFilters.pp_bound_bag`) is in place.  The SuffixFilter under
-   EDIT_DISTANCE is not proved for the analogous reason (`SSJ.suffixFilterSuffix_safe` needs strictly sorted lists). -/
+/- `tables_safe_position_ed` (PositionFilter.filter_tables under EDIT_DISTANCE, the same statement as
+   `tables_safe_prefix_ed` with `.position`) is PROVED in SSJ/Props/C04_ed.lean: the table-level position scan is safe on
+   bags (`SSJ.positionFindCandidates_complete_bag`, SSJ/Proofs/PositionBag.lean — with duplicates one probe token meets
+   several postings of a candidate and the counter over-counts the bag overlap, which only helps).
+   Still NOT PROVED: the SuffixFilter under EDIT_DISTANCE (`SSJ.suffixFilterSuffix_safe` needs strictly sorted lists). -/
 
 end EditDistance
 
